@@ -818,32 +818,52 @@ package yang
 // advances the character column by one and the tab-expanded column to the next
 // multiple of 8, any other character advances both by one; at the end of the
 // input nothing moves.
-//@ pred lexOK(l *lexer) = l != nil && 0 <= l.pos && l.pos <= len(l.input) && 0 <= l.tcol
-//@ pred lexSmall(l *lexer) = -4611686018427387904 < l.col && l.col < 4611686018427387904 && l.tcol < 4611686018427387904 && -4611686018427387904 < l.line && l.line < 4611686018427387904   -- counters bounded by the input length: no wrap-around
-//@ func (*lexer).next props C16 C02
-//@   requires lexOK(l) && lexSmall(l)
+//@ pred lexOK(l *lexer) = l != nil && 0 <= l.pos && l.pos <= len(l.input)
+//@ pred lexSmall(l *lexer) = -4611686018427387904 < l.col && l.col < 4611686018427387904 && 0 <= l.tcol && l.tcol < 4611686018427387904 && -4611686018427387904 < l.line && l.line < 4611686018427387904   -- counters bounded by the input length: no wrap-around
+//@ func (*lexer).next props C16 C02 C01
+//@   requires lexOK(l)
 //@   ensures  lexOK(l) && l.input == old(l.input)
 //@   ensures  old(l.pos) >= len(old(l.input)) ==> rune == eof && l.width == 0 && l.pos == old(l.pos) && l.line == old(l.line) && l.col == old(l.col) && l.tcol == old(l.tcol)
-//@   ensures  old(l.pos) < len(old(l.input)) ==> rune == decRune(old(l.input)[old(l.pos):]) && l.width == decWidth(old(l.input)[old(l.pos):]) && l.pos == old(l.pos) + l.width && l.width >= 1
-//@   ensures  rune == '\n' ==> l.line == old(l.line) + 1 && l.col == 0 && l.tcol == 0
-//@   ensures  rune == '\t' ==> l.line == old(l.line) && l.col == old(l.col) + 1 && l.tcol == old(l.tcol) + 8 - old(l.tcol) % 8
-//@   ensures  rune != eof && rune != '\n' && rune != '\t' ==> l.line == old(l.line) && l.col == old(l.col) + 1 && l.tcol == old(l.tcol) + 1
+//@   ensures  old(l.pos) < len(old(l.input)) ==> rune == decRune(old(l.input)[old(l.pos):]) && l.width == decWidth(old(l.input)[old(l.pos):]) && l.pos == old(l.pos) + l.width && l.width >= 1 && rune != eof
+//@   ensures  old(lexSmall(l)) && rune == '\n' ==> l.line == old(l.line) + 1 && l.col == 0 && l.tcol == 0
+//@   ensures  old(lexSmall(l)) && rune == '\t' ==> l.line == old(l.line) && l.col == old(l.col) + 1 && l.tcol == old(l.tcol) + 8 - old(l.tcol) % 8
+//@   ensures  old(lexSmall(l)) && rune != eof && rune != '\n' && rune != '\t' ==> l.line == old(l.line) && l.col == old(l.col) + 1 && l.tcol == old(l.tcol) + 1
 //@   modifies l.pos, l.width, l.line, l.col, l.tcol
 //@   safe
 //
 // backup undoes the last next (except that after backing up over a line break
 // the column is 0: the line break is read again next and resets it anyway).
-//@ func (*lexer).backup props C16 C02
-//@   requires l != nil && 0 <= l.width && l.width <= l.pos && l.pos <= len(l.input) && lexSmall(l) && -4611686018427387904 < l.tcol
-//@   ensures  l.pos == old(l.pos) - old(l.width) && l.width == old(l.width) && l.input == old(l.input)
+//@ func (*lexer).backup props C16 C02 C01
+//@   requires l != nil
+//@   ensures  l.width == old(l.width) && l.input == old(l.input)
+//@   ensures  0 <= old(l.width) && old(l.width) <= old(l.pos) ==> l.pos == old(l.pos) - old(l.width)
 //@   ensures  old(l.width) == 0 ==> l.line == old(l.line) && l.col == old(l.col) && l.tcol == old(l.tcol)
-//@   ensures  old(l.width) > 0 && old(l.col) > 0 ==> l.line == old(l.line) && l.col == old(l.col) - 1 && l.tcol == old(l.tcol) - 1
-//@   ensures  old(l.width) > 0 && old(l.col) <= 0 ==> l.line == old(l.line) - 1 && l.col == 0 && l.tcol == 0
+//@   ensures  old(lexSmall(l)) && old(l.width) > 0 && old(l.col) > 0 ==> l.line == old(l.line) && l.col == old(l.col) - 1 && l.tcol == old(l.tcol) - 1
+//@   ensures  old(lexSmall(l)) && old(l.width) > 0 && old(l.col) <= 0 ==> l.line == old(l.line) - 1 && l.col == 0 && l.tcol == 0
 //@   modifies l.pos, l.line, l.col, l.tcol
 //@   safe
 //
-//@ func (*lexer).consume props C16 C02
+//@ func (*lexer).consume props C16 C02 C01
 //@   requires l != nil
 //@   ensures  l.start == l.pos
 //@   modifies l.start
 //@   safe
+//
+// peek and acceptRun leave the cursor inside the input; peek leaves the
+// position where it was.
+//@ func (*lexer).peek props C16 C01
+//@   requires lexOK(l)
+//@   ensures  lexOK(l) && l.pos == old(l.pos) && l.input == old(l.input)
+//@   ensures  old(l.pos) >= len(old(l.input)) <==> result == eof
+//@   modifies l.pos, l.width, l.line, l.col, l.tcol
+//@   safe
+//
+//@ func (*lexer).acceptRun props C16 C01
+//@   requires lexOK(l)
+//@   ensures  lexOK(l) && l.input == old(l.input) && old(l.pos) <= l.pos
+//@   modifies l.pos, l.width, l.line, l.col, l.tcol
+//@   safe
+//@   loop 1
+//@     invariant lexOK(l) && l.input == old(l.input) && old(l.pos) <= l.pos
+//@     modifies l.pos, l.width, l.line, l.col, l.tcol
+//@     decreases len(l.input) - l.pos
